@@ -228,8 +228,16 @@ def gen_call(rng, validation):
              for _ in range(rng.randint(0, 2))}
     if fn == "integer" and rng.random() < 0.6:
         v = rng.choice([-1, 0, 1, 50, 100, 101, True, False])
+    if fn == "boolean" and rng.random() < 0.45:
+        v = rng.random() < 0.5
+    if fn == "uri" and rng.random() < 0.5:
+        v = rng.choice(["a:1", "A:b", "b:", "file:///x", "a+b.c-d:x", " a:1", "x", "", "1a:x"])
     if fn in ("instance", "instances"):
         c = rng.choice(PYCLS)
+        if fn == "instance" and rng.random() < 0.45:
+            v = {"bool": True, "int": 7, "str": "s", "mapping": {"k": 1}}.get(c)
+            if v is None:
+                v = I.render_obj(c, 2, True)
         if fn == "instances" and rng.random() < 0.5:
             n = rng.randint(0, 3)
             proto = {"bool": True, "int": 3, "str": "s", "mapping": {}}.get(c)
@@ -300,3 +308,66 @@ def stage(chk):
             fn, v, _, code = shard[i]
             chk.corr_failure("validation", {"function": fn, "argument": repr(v)[:300], "impl_code": code})
     chk.obligation("corr:validation", "correspondence", ok)
+
+
+def answers_stage(chk):
+    """Front.resp_val (scripted answers as Python values, used by the C09_*_answers_are_* theorems)
+    against the harness's real rendering: real validation on the rendered object = model on resp_val."""
+    from collections.abc import Mapping
+
+    import c09_emit as E
+    import c09_gen as G
+    from mopidy import exceptions
+    from mopidy.internal import validation
+
+    n = 1500 if chk.tier == "quick" else 15000
+    rng = vlib.Rng(chk.seed, "C09-answers")
+    rows = []
+    methods = ["lookup_many", "get_images", "search", "browse", "root_directory", "get_distinct", "as_list",
+               "get_items", "pl_lookup", "create", "save"]
+    while len(rows) < n:
+        m = rng.choice(methods)
+        resp = G.gen_resp(rng, m, rng.randint(0, 3), ["a:1", "a:2"], ["a:1", "a:2", "b:1"])
+        if resp[0] == "raise":
+            continue
+        mode = rng.weighted([(0, 5), (1, 3), (2, 2)])
+        # check_instance(x, cls) is only ever applied with a model class (C09_object_answers_are_check_instance)
+        cls = rng.choice(MODEL_CLASSES + (["str", "int"] if mode == 0 else []))
+        if rng.random() < 0.6 and G.EXPECTED_CLS.get(m) in MODEL_CLASSES:
+            cls = G.EXPECTED_CLS[m]
+        obj = I.render_resp(resp, rng.randint(0, 50))
+        try:
+            if mode == 0:
+                validation.check_instances(obj, pycls_obj(cls))
+            elif mode == 1:
+                validation.check_instance(obj, pycls_obj(cls))
+            else:
+                validation.check_instance(obj, Mapping)
+            code = 0
+        except exceptions.ValidationError:
+            code = 1
+        except TypeError:
+            code = 2
+        it = E.Interner()
+        term_r = E.resp(resp, it)
+        table = g_list([f"({it.uri(u)}, {g_str(u)})" for u in it.uris])
+        rows.append((resp, cls, mode, f"({term_r}, {E.CLS[cls]}, {mode}, {table}, {code})", code))
+        chk.dist(f"answers:mode{mode}:{['ok', 'ValidationError', 'TypeError'][code]}")
+    chk.count(len(rows))
+    shards = [rows[i : i + 500] for i in range(0, len(rows), 500)]
+    texts = [vlib.COQ_HEADER + "From Common Require Import Res Str Cases.\n"
+             "From Routing Require Import Model Validation Front ObsFront.\n"
+             "Definition cases : list (resp * cls * Z * list (uri * str) * Z) :=\n "
+             + g_list([r[3] for r in shard]) + ".\nEval vm_compute in mismatches acase_ok cases.\n" for shard in shards]
+    ok = True
+    for shard, (rc, out) in zip(shards, vlib.coq_eval_many(AREA, texts, jobs=12)):
+        bad = vlib.parse_nat_list(out)
+        if rc != 0 or bad is None:
+            ok = False
+            chk.corr_failure("answer_rendering", {"shard": "coq evaluation failed"}, out[-1500:])
+            continue
+        for i in bad:
+            ok = False
+            chk.corr_failure("answer_rendering", {"resp": shard[i][0], "cls": shard[i][1], "mode": shard[i][2],
+                                                  "impl_code": shard[i][4]})
+    chk.obligation("corr:answer_rendering", "correspondence", ok)
